@@ -286,8 +286,15 @@ def check(case, stats=None):
                 got = actual_rows(new)
                 want_rows = model_rows(tname, R)
                 key = (lambda r: "+-.".index(r[j])) if kinds[j][1] == "strand" else (lambda r: r[j])
+                def num(v):
+                    # a whole-valued float and the int of the same value are the same cell (a ragged numeric column that went through an
+                    # empty table may come back as float64; the rows are compared by value)
+                    if isinstance(v, (list, tuple)):
+                        return [num(x) for x in v]
+                    return int(v) if isinstance(v, float) and v.is_integer() else v
+
                 def norm(r):
-                    return repr(tuple(float(v) if kinds[c][1] == "float" else v for c, v in enumerate(r)))
+                    return repr(tuple(float(v) if kinds[c][1] == "float" else num(v) for c, v in enumerate(r)))
                 if sorted(map(norm, got)) != sorted(map(norm, want_rows)):
                     out.append(Failure("C19:sort_by-not-a-permutation", {"column": nm, "expected": want_rows, "actual": got}))
                 elif [key(r) for r in got] != sorted(key(r) for r in got):
@@ -377,6 +384,21 @@ def check(case, stats=None):
                             out.append(Failure("C19:unequal-columns-accepted", {"type": tname, "lengths": [len(getattr(bad, f.name)) for f in dataclasses.fields(bad)]}))
                     except Exception:
                         pass
+                elif how == "wide" and any(k in ("str", "dna", "seq", "seq1") for _, k in kinds) and n >= 1:
+                    # a character beyond one byte in a text or alphabet column: construction raises, or the table holds the text it was given
+                    j = next(i for i, (_, k) in enumerate(kinds) if k in ("str", "dna", "seq", "seq1"))
+                    rows = [list(r) for r in R]
+                    rows[0][j] = chr(256 + ord("A")) + rows[0][j]
+                    try:
+                        good = build(tname, [tuple(r) for r in R])
+                        cols = {f.name: getattr(good, f.name) for f in dataclasses.fields(good)}
+                        cols[kinds[j][0]] = [r[j] for r in rows]
+                        bad = dc(**cols)
+                        stored = [r[j] for r in actual_rows(bad)]
+                    except Exception:
+                        stored = None
+                    if stored is not None and stored != [r[j] for r in rows]:
+                        out.append(Failure("C19:non-byte-character-stored-as-other-text", {"type": tname, "column": kinds[j][0], "given": [r[j] for r in rows][:3], "stored": stored[:3]}))
                 elif how == "foreign" and any(k in ("strand", "dna") for _, k in kinds) and n >= 1:
                     j = next(i for i, (_, k) in enumerate(kinds) if k in ("strand", "dna"))
                     rows = [list(r) for r in R]
@@ -453,7 +475,7 @@ def op_strategy():
         st.builds(lambda s: {"op": "dict-roundtrip", "src": s}, src),
         st.builds(lambda s: {"op": "pandas", "src": s}, src),
         st.builds(lambda s: {"op": "from_entry_tuples", "src": s}, src),
-        st.builds(lambda s, h: {"op": "bad-construction", "src": s, "how": h}, src, st.sampled_from(["lengths", "foreign"])),
+        st.builds(lambda s, h: {"op": "bad-construction", "src": s, "how": h}, src, st.sampled_from(["lengths", "foreign", "wide"])),
     )
 
 
